@@ -486,6 +486,25 @@ theorem OTO.ofPairs_of_wf {s : OTO α} (h : s.WF) : OTO.ofPairs s.fwd = ⟨s.fwd
 
 /-! register file -/
 
+/-- a bijection given by its item list (distinct keys, distinct values) with the swapped list as inverse -/
+theorem OTO.WF.ofBijection (l : List (α × α)) (hk : (l.map Prod.fst).Nodup) (hv : (l.map Prod.snd).Nodup) :
+    (⟨l, l.map swap⟩ : OTO α).WF := by
+  have hi : NodupKeys (l.map swap) := by
+    unfold NodupKeys keys
+    rw [List.map_map]
+    exact hv
+  refine ⟨hk, hi, fun k v => ?_⟩
+  show lookup k l = some v ↔ lookup v (l.map swap) = some k
+  rw [← mem_iff_lookup l hk, ← mem_iff_lookup _ hi, mem_map_swap]
+
+theorem OTO.WF.ofPairsAs (ps hint : List (α × α)) : (OTO.ofPairsAs ps hint).WF := by
+  unfold OTO.ofPairsAs
+  split
+  · next h =>
+    simp only [OTO.admissible, Bool.and_eq_true, decide_eq_true_eq] at h
+    exact OTO.WF.ofBijection hint h.1.1.1 h.1.1.2
+  · exact OTO.WF.ofPairs ps
+
 def AllWF (regs : List (OTO α)) : Prop := ∀ s ∈ regs, s.WF
 
 theorem AllWF.append {regs : List (OTO α)} (h : AllWF regs) {s : OTO α} (hs : s.WF) : AllWF (regs ++ [s]) := by
@@ -513,6 +532,11 @@ theorem otoCmd_wf {regs regs' : List (OTO α)} {c : OtoCmd α} {ret : Ret α}
     obtain ⟨ps, _, he⟩ := hc
     injection he with he _; subst he
     exact h.append (OTO.WF.ofPairs ps)
+  | newAs src hint =>
+    simp only [otoCmd, Option.map_eq_some_iff] at hc
+    obtain ⟨ps, _, he⟩ := hc
+    injection he with he _; subst he
+    exact h.append (OTO.WF.ofPairsAs ps hint)
   | unique src =>
     simp only [otoCmd, Option.map_eq_some_iff] at hc
     obtain ⟨ps, _, he⟩ := hc
@@ -559,6 +583,11 @@ theorem otoCmd_isolated {regs regs' : List (OTO α)} {c : OtoCmd α} {ret : Ret 
     regs'[j]? = regs[j]? := by
   cases c with
   | new src =>
+    simp only [otoCmd, Option.map_eq_some_iff] at hc
+    obtain ⟨ps, _, he⟩ := hc
+    injection he with he _; subst he
+    simp [List.getElem?_append, hj]
+  | newAs src hint =>
     simp only [otoCmd, Option.map_eq_some_iff] at hc
     obtain ⟨ps, _, he⟩ := hc
     injection he with he _; subst he
@@ -920,6 +949,33 @@ theorem M2M.updateFrom_data {s o : M2M α} (ho : o.WF) (a x : α) :
   show x ∈ getSet a (List.foldl _ s.data o.data) ↔ _
   rw [foldMerge_mem, ho.gd.exists_iff]
 
+/-- `x.update(x.inv)` keeps the invariant (loop 2 reads what loop 1 wrote) -/
+theorem selfMerge_wf {A : M2M α} (w : A.WF) : (selfMerge A).WF := by
+  have g1 : GoodDict (A.inv.foldl (fun d p => mergeKey p.1 p.2 d) A.data) := foldMerge_good w.gd _ w.gi.ne_of_mem
+  refine ⟨g1, foldMerge_good w.gi _ g1.ne_of_mem, ?_⟩
+  intro a b
+  show b ∈ getSet a (List.foldl _ A.data A.inv) ↔ a ∈ getSet b (List.foldl _ A.inv (List.foldl _ A.data A.inv))
+  rw [foldMerge_mem, foldMerge_mem, g1.exists_iff, w.gi.exists_iff, foldMerge_mem, w.gi.exists_iff]
+  have t1 := w.transpose a b
+  have t2 := w.transpose b a
+  constructor
+  · rintro (h | h)
+    · exact Or.inl (t1.1 h)
+    · exact Or.inr (Or.inl (t2.2 h))
+  · rintro (h | h | h)
+    · exact Or.inl (t1.2 h)
+    · exact Or.inr (t2.1 h)
+    · exact Or.inl (t1.2 h)
+
+theorem M2M.WF.updateFromReg {s o : M2M α} (h : s.WF) (ho : o.WF) (self side side2 : Bool) :
+    (s.updateFromReg o self side side2).WF := by
+  unfold M2M.updateFromReg
+  split
+  · split
+    · exact h
+    · exact (selfMerge_wf (h.side side)).side side
+  · exact ((h.side side).updateFrom (ho.side side2)).side side
+
 /-! replace -/
 
 theorem hasKey_put_same (v : α) (ws : List α) (d : Dict α (List α)) (b : α) (h : hasKey v d = true) :
@@ -1067,7 +1123,7 @@ theorem m2mCmd_wf {regs regs' : List (M2M α)} {c : M2MCmd α} {ret : Ret α}
     split at hc
     next s o hs ho =>
       injection hc with hc; injection hc with hc _; subst hc
-      exact h.set r ((((h.get hs).side side).updateFrom ((h.get ho).side side2)).side side)
+      exact h.set r ((h.get hs).updateFromReg (h.get ho) _ side side2)
     next => simp at hc
 
 theorem m2mRun_wf {regs regs' : List (M2M α)} (cs : List (M2MCmd α))
